@@ -15,7 +15,10 @@ SOURCES = ["src/allmydata/storage/expirer.py", "src/allmydata/storage/lease.py",
 DESIGN_REF = "DESIGN.md §2 C26"
 TECHNIQUE = ("Lean 4 theorems over an executable model of LeaseCheckingCrawler.process_share/process_bucket and "
              "cancel_lease; differential correspondence against the real LeaseCheckingCrawler of a real StorageServer "
-             "on real share files with a patched clock; monitor = the documented expiry predicate")
+             "on real share files with a patched clock - about 60% of the servers are built through the production "
+             "configuration path (tahoe.cfg with every expire.* combination -> client.read_config -> "
+             "_Client.get_anonymous_storage_server) and the configuration reaching the crawler is compared with the "
+             "documented meaning of the settings; monitor = the documented expiry predicate incl. the share-type filter")
 LEVEL_TEXT = ("disabled_never_deletes and deleted_iff_all_expired_partial (removed iff type enabled and every lease expired "
               "under the documented predicate; exactly the expired leases are cancelled) are proved for all configurations, "
               "clocks and lease lists whose cancel secrets are pairwise distinct and non-empty; the unguarded statement is "
@@ -30,7 +33,10 @@ RULE = ("a case is one share file (type, 0..5 leases with renewal times placed a
         "(config, now - renewal offsets, cancel-secret pattern, share type); non-trivial = the share has at least one lease")
 TRUSTED = ["lean/Tahoe/Storage/Expire.lean is a hand transcription of process_share/process_bucket/cancel_lease "
            "(age-mode limit as repaired by fixes/C26-age-mode.diff); os.stat-based byte counters and the lease-age histogram are not modelled",
-           "the harness patches the module attribute `time` of expirer/lease/crawler with an integral fake clock"]
+           "the harness patches the module attribute `time` of expirer/lease/crawler with an integral fake clock",
+           "production path: _Client.get_anonymous_storage_server is run unmodified on a minimal MultiService shell carrying "
+           "the real read_config() result, nodeid and stats_provider=None (the rest of node start-up is not needed by it); "
+           "the server's reactor clock is replaced by a twisted Clock for leases granted through the API"]
 ASSUMPTIONS = ["lease expiry = renewal time + 31 days (DEFAULT_RENEWAL_TIME; checked on leases granted through the real StorageServer API)",
                "clock values are integral seconds",
                "share files are well-formed v1/v2 containers (corrupt shares are outside this property)"]
@@ -57,6 +63,7 @@ class Env:
 
     def __init__(self, ctx):
         from allmydata.storage import expirer, lease, crawler
+        self.ctx = ctx
         self.mods = (expirer, lease, crawler)
         self.ft = FakeTime()
         self.saved = [m.time for m in self.mods]
@@ -74,22 +81,74 @@ class Env:
         shutil.rmtree(self.root, ignore_errors=True)
 
     def new_server(self, cfg):
+        """Direct construction (real tuples), or - cfg["prod"] - the production path: a tahoe.cfg with the
+        expire.* keys, allmydata.client.read_config, and _Client.get_anonymous_storage_server run on a
+        minimal node shell (that method only needs .config/.get_config/.nodeid/.stats_provider and a
+        MultiService to parent the server)."""
         from twisted.internet.task import Clock
         from allmydata.storage.server import StorageServer
         self.n += 1
         d = os.path.join(self.root, "s%d" % self.n)
         clock = Clock()
-        kw = {}
-        if cfg["mode"] == "age":
-            kw = dict(expiration_mode="age", expiration_override_lease_duration=cfg["override"])
+        if cfg.get("prod"):
+            ss = self.production_server(cfg, d)
+            ss._clock = clock          # the node passes the reactor; leases granted via the API use this clock
         else:
-            kw = dict(expiration_mode="cutoff-date", expiration_cutoff_date=cfg["cutoff"])
-        types = tuple(t for t, on in (("immutable", cfg["imm"]), ("mutable", cfg["mut"])) if on)
-        ss = StorageServer(d, NODEID, clock=clock, expiration_enabled=cfg["enabled"],
-                           expiration_sharetypes=types, **kw)
+            kw = {}
+            if cfg["mode"] == "age":
+                kw = dict(expiration_mode="age", expiration_override_lease_duration=cfg["override"])
+            else:
+                kw = dict(expiration_mode="cutoff-date", expiration_cutoff_date=cfg["cutoff"])
+            types = tuple(t for t, on in (("immutable", cfg["imm"]), ("mutable", cfg["mut"])) if on)
+            ss = StorageServer(d, NODEID, clock=clock, expiration_enabled=cfg["enabled"],
+                               expiration_sharetypes=types, **kw)
         ss._verif_clock = clock
         ss.lease_checker.cpu_slice = 1e12
+        self.check_parsed(cfg, ss)
         return ss
+
+    def production_server(self, cfg, basedir):
+        from twisted.application import service
+        from allmydata.client import _Client, read_config
+
+        class NodeShell(service.MultiService):
+            STOREDIR = _Client.STOREDIR
+            get_anonymous_storage_server = _Client.get_anonymous_storage_server
+
+            def __init__(self, config):
+                service.MultiService.__init__(self)
+                self.config = config
+                self.get_config = config.get_config
+                self.nodeid = NODEID
+                self.stats_provider = None
+
+        os.makedirs(os.path.join(basedir, "private"), 0o700)
+        with open(os.path.join(basedir, "tahoe.cfg"), "w") as f:
+            f.write(tahoe_cfg(cfg))
+        config = read_config(basedir, "client.port")
+        shell = NodeShell(config)
+        ss = shell.get_anonymous_storage_server()
+        ss._verif_shell = shell
+        self.ctx.count("server:production-path")
+        return ss
+
+    def check_parsed(self, cfg, ss):
+        """The configuration the lease checker ended up with vs the documented meaning of the settings."""
+        lc = ss.lease_checker
+        st = lc.sharetypes_to_expire
+        if isinstance(st, (tuple, list, set, frozenset)) and all(isinstance(x, str) for x in st):
+            types = ",".join(sorted(set(st))) or "-"
+        else:
+            types = "!not-a-collection-of-names:%r" % (st,)
+        got = "enabled=%s mode=%s override=%s cutoff=%s types=%s" % (
+            bool(lc.expiration_enabled), lc.mode, lc.override_lease_duration, lc.cutoff_date, types)
+        want = "enabled=%s mode=%s override=%s cutoff=%s types=%s" % (
+            cfg["enabled"], cfg["mode"], cfg["override"] if cfg["mode"] == "age" else None,
+            cfg["cutoff"] if cfg["mode"] != "age" else None,
+            ",".join(t for t, on in (("immutable", cfg["imm"]), ("mutable", cfg["mut"])) if on) or "-")
+        if got != want:
+            self.ctx.disagree("expiry configuration reaching LeaseCheckingCrawler (mode, override, cutoff, share types) "
+                              "differs from the documented meaning of the settings", {"cfg": cfg}, got, want)
 
     def server_for(self, cfg):
         k = cfg_key(cfg)
@@ -99,7 +158,51 @@ class Env:
 
 
 def cfg_key(cfg):
-    return (cfg["enabled"], cfg["mode"], cfg.get("override"), cfg.get("cutoff"), cfg["imm"], cfg["mut"])
+    return (cfg["enabled"], cfg["mode"], cfg.get("override"), cfg.get("cutoff"), cfg["imm"], cfg["mut"],
+            bool(cfg.get("prod")), cfg.get("spell", 0))
+
+
+def duration_string(secs, spell):
+    """A documented spelling (docs/garbage-collection.rst / time_format.parse_duration) of `secs` seconds."""
+    forms = []
+    if secs % (365 * DAY) == 0 and secs:
+        forms += ["%d years", "%dyear"]
+    if secs % (31 * DAY) == 0 and secs:
+        forms += ["%d mo", "%dmonths", "%d month"]
+    if secs % DAY == 0:
+        forms += ["%d days", "%dday", "%d Days"]
+    unit = {"y": 365 * DAY, "m": 31 * DAY, "d": DAY}
+    if not forms:
+        return ["%d s", "%dseconds", "%d second"][spell % 3] % secs
+    f = forms[spell % len(forms)]
+    return f % (secs // unit[f.replace("%d", "").strip().lower()[0]])
+
+
+def tahoe_cfg(cfg):
+    """tahoe.cfg for the production path.  spell selects boolean / duration spellings and which keys that
+    equal their documented default are omitted (expire.enabled=false, expire.immutable/mutable=true,
+    expire.mode when expiration is disabled and the mode is age)."""
+    import time as _t
+    spell = cfg.get("spell", 0)
+    tr, fa = [("true", "false"), ("True", "False"), ("yes", "no"), ("on", "off"), ("1", "0")][spell % 5]
+    omit = (spell // 5) % 2 == 1
+    lines = ["[node]", "nickname = verif", "[storage]", "enabled = true"]
+    if cfg["enabled"] or not omit:
+        lines.append("expire.enabled = %s" % (tr if cfg["enabled"] else fa))
+    if cfg["mode"] == "age":
+        if cfg["enabled"] or not omit:
+            lines.append("expire.mode = age")
+        if cfg["override"] is not None:
+            lines.append("expire.override_lease_duration = %s" % duration_string(cfg["override"], spell // 10))
+    else:
+        assert cfg["cutoff"] % DAY == 0
+        lines.append("expire.mode = cutoff-date")
+        lines.append("expire.cutoff_date = %s" % _t.strftime("%Y-%m-%d", _t.gmtime(cfg["cutoff"])))
+    if not (cfg["imm"] and omit):
+        lines.append("expire.immutable = %s" % (tr if cfg["imm"] else fa))
+    if not (cfg["mut"] and omit):
+        lines.append("expire.mutable = %s" % (tr if cfg["mut"] else fa))
+    return "\n".join(lines) + "\n"
 
 
 def cfg_tokens(cfg):
@@ -202,30 +305,41 @@ def exc_name(e):
 
 # ------------------------------------------------------------------ case generation
 
+MID = T0 - T0 % DAY      # midnight UTC before T0: cutoff dates are whole days (expire.cutoff_date = YYYY-MM-DD)
+
+
 def gen_cfg(rng):
     mode = rng.choice(["age-none", "age-none", "age-ov", "age-ov", "cutoff", "cutoff"])
     cfg = {"enabled": rng.random() < 0.8, "imm": rng.random() < 0.8, "mut": rng.random() < 0.8,
-           "override": None, "cutoff": None}
+           "override": None, "cutoff": None, "prod": rng.random() < 0.65, "spell": rng.randrange(60)}
     if mode == "age-none":
         cfg["mode"] = "age"
     elif mode == "age-ov":
         cfg["mode"] = "age"
-        cfg["override"] = rng.choice([0, 1, DAY, 10 * DAY, 31 * DAY, 60 * DAY, 365 * DAY])
+        cfg["override"] = rng.choice([0, 1, DAY, 10 * DAY, 31 * DAY, 60 * DAY, 62 * DAY, 365 * DAY])
     else:
         cfg["mode"] = "cutoff-date"
-        cfg["cutoff"] = T0 + rng.choice([-400 * DAY, -40 * DAY, -DAY, 0, 5 * DAY])
+        cfg["cutoff"] = MID + rng.choice([-400 * DAY, -40 * DAY, -DAY, 0, DAY, 5 * DAY])
     return cfg
 
 
 def all_cfgs():
+    """every combination of enabled x share-type switches x (age, age+override…, cutoff dates), each once through
+    the production path (tahoe.cfg -> read_config -> _Client.get_anonymous_storage_server) and once directly"""
     res = []
-    for enabled in (True, False):
-        for imm in (True, False):
-            for mut in (True, False):
-                for ov in (None, 0, DAY, 31 * DAY, 60 * DAY):
-                    res.append({"enabled": enabled, "imm": imm, "mut": mut, "mode": "age", "override": ov, "cutoff": None})
-                for cd in (T0 - 40 * DAY, T0):
-                    res.append({"enabled": enabled, "imm": imm, "mut": mut, "mode": "cutoff-date", "override": None, "cutoff": cd})
+    n = 0
+    for prod in (True, False):
+        for enabled in (True, False):
+            for imm in (True, False):
+                for mut in (True, False):
+                    for ov in (None, 0, DAY, 31 * DAY, 60 * DAY):
+                        n += 1
+                        res.append({"enabled": enabled, "imm": imm, "mut": mut, "mode": "age", "override": ov,
+                                    "cutoff": None, "prod": prod, "spell": (7 * n) % 60 if prod else 0})
+                    for cd in (MID - 40 * DAY, MID + DAY):
+                        n += 1
+                        res.append({"enabled": enabled, "imm": imm, "mut": mut, "mode": "cutoff-date", "override": None,
+                                    "cutoff": cd, "prod": prod, "spell": (7 * n) % 60 if prod else 0})
     return res
 
 
@@ -291,7 +405,10 @@ def monitor_share(ctx, cfg, now, sh, exists_after, case, full_pass):
         if not cfg["enabled"]:
             ctx.violation("share deleted although expiration is disabled", case, "deleted-while-disabled")
         elif not should_go:
-            sig = "shared-cancel-secret-deletes-valid-lease" if dup else "deleted-with-valid-lease-" + mode
+            if not type_enabled(cfg, sh["ty"]):
+                sig = "deleted-although-type-not-enabled-" + ("mutable" if sh["ty"] == "m" else "immutable")
+            else:
+                sig = "shared-cancel-secret-deletes-valid-lease" if dup else "deleted-with-valid-lease-" + mode
             ctx.violation("share deleted although a lease is still valid or its type is not enabled", case, sig)
     elif should_go:
         if not leases:
@@ -436,7 +553,7 @@ def corpus():
     now = T0
     age = {"enabled": True, "imm": True, "mut": True, "mode": "age", "override": None, "cutoff": None}
     ov31 = dict(age, override=31 * DAY)
-    cut = {"enabled": True, "imm": True, "mut": True, "mode": "cutoff-date", "override": None, "cutoff": T0}
+    cut = {"enabled": True, "imm": True, "mut": True, "mode": "cutoff-date", "override": None, "cutoff": MID + DAY}
     res = []
     # probe 1: age mode, no override, lease renewed 400 days ago (expired 369 days ago)
     for ty in ("i", "m"):
@@ -448,6 +565,12 @@ def corpus():
         res.append((cut, now, [{"ty": ty, "leases": [(7, now - 50 * DAY, 1), (7, now - 49 * DAY, 2), (8, now - 48 * DAY, 3)]}], False))
         res.append((cut, now, [{"ty": ty, "leases": [(7, now - 50 * DAY, 1), (7, now - 49 * DAY, 2)]}], False))
         res.append((cut, now, [{"ty": ty, "leases": []}], False))
+    # share-type filter through the production configuration path: only one type enabled, both kinds all-expired
+    for base in (dict(cut, prod=True), dict(ov31, override=10 * DAY, prod=True)):
+        for (imm, mut) in ((True, False), (False, True), (False, False)):
+            for ty in ("i", "m"):
+                res.append((dict(base, imm=imm, mut=mut), now,
+                            [{"ty": ty, "leases": [(1, now - 400 * DAY, 1), (2, now - 50 * DAY, 2)]}], False))
     res.append((dict(cut, enabled=False), now, [{"ty": "i", "leases": [(1, now - 400 * DAY, 1)]}], True))
     res.append((dict(cut, imm=False), now, [{"ty": "i", "leases": [(1, now - 400 * DAY, 1)]}, {"ty": "m", "leases": [(2, now - 400 * DAY, 2)]}], False))
     return res
@@ -477,7 +600,7 @@ def _run(ctx, env):
         cfgs = all_cfgs()
         n = ctx.budget(500, 12000)
         for i in range(n):
-            cfg = cfgs[i % len(cfgs)] if i % 3 else gen_cfg(rng)
+            cfg = cfgs[(i - i // 3) % len(cfgs)] if i % 3 else gen_cfg(rng)
             now = T0 + rng.choice([0, 1, 12345, 200 * DAY])
             nsh = rng.choice([1, 1, 1, 2, 3]) if rng.random() < 0.97 else 0
             dup_p = rng.choice([0.0, 0.0, 0.0, 0.3, 0.7])
